@@ -153,3 +153,80 @@ Theorem C06_multi_nonvacuous :
     generate_crates Proofs.C06MultiWitness.m_ts_gen [] (multi_plan TypeScript (@rev _) (multi_crates (@rev _) (rev arrivals))).
 Proof. exact Proofs.C06MultiWitness.multi_nonvacuous. Qed.
 Print Assumptions C06_multi_nonvacuous.
+
+(* ---------------------------------------------------------------- the per-file import set (visitors.rs:156) *)
+
+(* reconcile_referenced_types looks each mentioned, non-local type name up in the import candidates of ONE file by
+   iterating a HashSet (`.iter().find(..)`).  Outside class 3 (Spec.C06MultiSpec.file_import_ambiguous: a mentioned non-local
+   name that two candidates of the file bring in from two different crates) the data it returns is the same for ALL pairs of
+   iteration orders ... *)
+Theorem C06_multi_file_hash_order_irrelevant :
+  forall (uc : unicode) (ho1 ho2 : list imported -> list imported) (pd : parsed),
+    Proofs.C14Front.oracle_ok ho1 -> Proofs.C14Front.oracle_ok ho2 ->
+    file_import_ambiguous (all_references uc pd) (p_type_names pd) (p_imports pd) = false ->
+    reconcile_referenced_types uc ho1 pd = reconcile_referenced_types uc ho2 pd.
+Proof. exact Proofs.C06Multi.rrt_order_irrelevant. Qed.
+Print Assumptions C06_multi_file_hash_order_irrelevant.
+
+(* ... hence so is everything the per-file parsers send to the collector, for every workspace none of whose source files is
+   in class 3 (file_unambiguous uc T ign e: the class evaluated on the items and import candidates parse_file_multi has
+   collected for e when it calls reconcile_referenced_types - Proofs.C06Multi.parse_file_pre, the front half of
+   parse_file_multi; parse_file_multi_pre: parse_file_multi = that, then reconcile_referenced_types) *)
+Theorem C06_multi_workspace_parse_hash_order_irrelevant :
+  forall (uc : unicode) (T ign : list str) (ho1 ho2 : list imported -> list imported) (ws : list ws_entry),
+    Proofs.C14Front.oracle_ok ho1 -> Proofs.C14Front.oracle_ok ho2 ->
+    forallb (Proofs.C06Multi.file_unambiguous uc T ign) ws = true ->
+    parse_workspace uc T ign ho1 ws = parse_workspace uc T ign ho2 ws.
+Proof. exact Proofs.C06Multi.parse_workspace_order_irrelevant. Qed.
+Print Assumptions C06_multi_workspace_parse_hash_order_irrelevant.
+
+Theorem C06_multi_parse_file_front_half :
+  forall (uc : unicode) (T ign : list str) tstr own ho f,
+    parse_file_multi uc tstr T own ign ho f =
+    match Proofs.C06Multi.parse_file_pre uc T ign tstr own f with
+    | Ok o => Ok (option_map (reconcile_referenced_types uc ho) o) | Err e => Err e | Panic s => Panic s
+    end.
+Proof. exact Proofs.C06Multi.parse_file_multi_pre. Qed.
+Print Assumptions C06_multi_parse_file_front_half.
+
+(* From the source files to the generated files.  For every workspace, --target-os list, language and ignore list: if no source
+   file is in class 3, the per-file parsers succeed (they always do: Props/C07 C07_workspace_parse_total), each crate has distinct
+   item names per kind and the workspace is outside imports_ambiguity, then for ALL iteration orders of the three hash containers
+   (per-file import set hf, per-crate import set ho, CrateTypes hc), EVERY arrival order a2 of the per-file results, and every
+   generator that reads the four item lists: the parsers deliver the same results and the run generates the same files with the
+   same bytes.  (What the model cannot exhibit - real threads, real RandomState - is sampled by checks/c06.py parts (b), (c).) *)
+Theorem C06_multi_end_to_end :
+  forall (uc : unicode) (T ign : list str) (lang : lang) (ws : list ws_entry)
+         (hf1 hf2 ho1 ho2 : list imported -> list imported) (hc1 hc2 : crate_types -> crate_types) (a1 : list (str * parsed)),
+    Proofs.C14Front.oracle_ok hf1 -> Proofs.C14Front.oracle_ok hf2 -> Proofs.C14Front.oracle_ok ho1 -> Proofs.C14Front.oracle_ok ho2 ->
+    Proofs.C14Front.oracle_ok hc1 -> Proofs.C14Front.oracle_ok hc2 ->
+    forallb (Proofs.C06Multi.file_unambiguous uc T ign) ws = true ->
+    parse_workspace uc T ign hf1 ws = Ok a1 ->
+    Proofs.C06Multi.all_distinct (collect a1) -> Proofs.C06Multi.ws_ambiguity (collect a1) = None ->
+    parse_workspace uc T ign hf2 ws = Ok a1 /\
+    forall a2, Permutation a1 a2 ->
+      forall (St : Type) (gen : St -> str -> scoped -> parsed -> outcome (str * St)), Proofs.C06Multi.reads_items gen ->
+        forall st, generate_crates gen st (multi_plan lang hc1 (multi_crates ho1 a1)) =
+                   generate_crates gen st (multi_plan lang hc2 (multi_crates ho2 a2)).
+Proof. exact Proofs.C06Multi.multi_end_to_end. Qed.
+Print Assumptions C06_multi_end_to_end.
+
+(* its hypotheses hold of the three-crate workspace of C06_multi_nonvacuous (under the reversed per-file order, say) *)
+Theorem C06_multi_end_to_end_nonvacuous :
+  forallb (Proofs.C06Multi.file_unambiguous uc_exec [] []) Proofs.C06MultiWitness.ws_clean = true /\
+  exists arrivals, parse_workspace uc_exec [] [] (@rev _) Proofs.C06MultiWitness.ws_clean = Ok arrivals /\
+                   Proofs.C06Multi.all_distinct (collect arrivals) /\ Proofs.C06Multi.ws_ambiguity (collect arrivals) = None.
+Proof. exact Proofs.C06MultiWitness.multi_end_to_end_nonvacuous. Qed.
+Print Assumptions C06_multi_end_to_end_nonvacuous.
+
+(* class 3 is needed: app/src/m.rs says `use alpha::Item;`, also writes the path `beta::Item`, and has a member of type Item;
+   the identity order keeps the import of alpha, the reversed order that of beta (kept_imports = the imports each per-file
+   result carries to the collector) *)
+Theorem C06_multi_file_ambiguous_refuted :
+  forallb (Proofs.C06Multi.file_unambiguous uc_exec [] []) Proofs.C06MultiWitness.ws_file_amb = false /\
+  Proofs.C06MultiWitness.kept_imports Proofs.C14Witness.idl Proofs.C06MultiWitness.ws_file_amb =
+    [(lit "app", [{| base_crate := lit "alpha"; type_name := lit "Item" |}])] /\
+  Proofs.C06MultiWitness.kept_imports (@rev _) Proofs.C06MultiWitness.ws_file_amb =
+    [(lit "app", [{| base_crate := lit "beta"; type_name := lit "Item" |}])].
+Proof. exact Proofs.C06MultiWitness.file_ambiguous_refuted. Qed.
+Print Assumptions C06_multi_file_ambiguous_refuted.
